@@ -56,7 +56,7 @@ fn r_chunk<V: ExactSizeIterator<Item = usize>>(m: &mut RModel, n: usize, r: Opti
     }
 }
 
-// @verif family=SEQ quick=C16,C10 thorough=C05 timeout=900 owner=C16
+// @verif family=SEQ quick=C16,C10 thorough=C05 timeout=1500 owner=C16
 // @bounds kind=Range<usize> with FULLY symbolic start,end in [0,usize::MAX] (empty and inverted included); history: next_id_and_value x k (k<=2), next_chunk(n) with n arbitrary in [0,usize::MAX-4], next_id_and_value, buffered_iter(m).next() with m arbitrary in [1,usize::MAX-4] and n+m+4 not overflowing, try_get_len, skip_to_end or not, into_seq_iter (bounds of the returned range); cumulative request below usize::MAX (the wrap of the counter is known finding KF-C16-wrap)
 #[kani::proof]
 #[kani::unwind(5)]
@@ -175,7 +175,7 @@ fn s_pulls<I: ConcurrentIter, F: Fn(I::Item) -> usize>(it: &I, len: usize, f: F)
     kani::cover!(n == 0 && k < len, "W: chunk size zero mid-way");
 }
 
-// @verif family=SEQ quick=C16 timeout=900 owner=C16
+// @verif family=SEQ quick=C16 timeout=1500 owner=C16
 // @bounds kind=&[u8] len<=3; k<=len+1 single pulls; next_chunk(n) with n arbitrary in [0,usize::MAX-16]; 2 more single pulls
 #[kani::proof]
 #[kani::unwind(6)]
@@ -188,7 +188,7 @@ fn bound_slice() {
     s_pulls(&it, len, |r: &u8| pos_in(src, r));
 }
 
-// @verif family=SEQ quick=C16 timeout=900 owner=C16
+// @verif family=SEQ quick=C16 timeout=1500 owner=C16
 // @bounds kind=Vec<Tracked> len<=3 (capacity 4); k<=len+1 single pulls; next_chunk(n) with n arbitrary in [0,usize::MAX-16]; 2 more single pulls; drop
 #[kani::proof]
 #[kani::unwind(6)]
@@ -205,7 +205,7 @@ fn bound_vec() {
     s_pulls(&it, len, |t: Tracked| t.0 as usize);
 }
 
-// @verif family=SEQ quick=C16 timeout=900 owner=C16
+// @verif family=SEQ quick=C16 timeout=1500 owner=C16
 // @bounds kind=[Tracked;3]; k<=4 single pulls; next_chunk(n) with n arbitrary in [0,usize::MAX-16]; 2 more single pulls; drop
 #[kani::proof]
 #[kani::unwind(6)]
@@ -214,7 +214,7 @@ fn bound_array() {
     s_pulls(&it, 3, |t: Tracked| t.0 as usize);
 }
 
-// @verif family=SEQ quick=C16 timeout=900 owner=C16
+// @verif family=SEQ quick=C16 timeout=1500 owner=C16
 // @bounds kind=ConIterOfIter<usize,Probe> len<=3; k<=len+1 single pulls; next_chunk(n) with n arbitrary in [0,usize::MAX-16]; 2 more single pulls
 #[kani::proof]
 #[kani::unwind(6)]
@@ -244,7 +244,7 @@ fn zero_calls<I: ConcurrentIter>(it: &I) {
     assert!(false, "C16: a chunk size of zero was accepted by buffered_iter/for_each/enumerate_for_each/fold");
 }
 
-// @verif family=SEQ quick=C16 timeout=300 expectpanic=Chunk_size_must_be_positive nocover=1 owner=C16
+// @verif family=SEQ quick=C16 timeout=1500 expectpanic=Chunk_size_must_be_positive nocover=1 owner=C16
 // @bounds kinds=&[u8] (len 2), Range<usize>, ConIterOfIter<usize,Probe>; buffered_iter(0), for_each(0), enumerate_for_each(0), fold(0): every one of the 12 calls must panic with the documented message
 #[kani::proof]
 #[kani::unwind(5)]
@@ -265,7 +265,7 @@ fn bound_zero_panics() {
 // ------------------------------------------------------------------------------------------------
 // known finding KF-C16-wrap: the position counter is a machine word advanced by fetch_add(n); a chunk
 // size close to usize::MAX wraps it and later pulls deliver positions again (and begin + n overflows).
-// @verif family=SEQ quick=C16 timeout=300
+// @verif family=SEQ quick=C16 timeout=1500
 // @bounds kind=&[u8] len=3; one single pull; next_chunk(usize::MAX); two single pulls  (isolates known finding KF-C16-wrap)
 #[kani::proof]
 #[kani::unwind(6)]
